@@ -383,6 +383,9 @@ type c18Case struct {
 	Line     string  `json:"set_cookie"`
 	Expected string  `json:"expected"`
 	Observed string  `json:"observed"`
+	// request-cookie shapes (c18_reqshape_test.go): the shape and the Cookie header field(s) sent
+	Shape        string   `json:"shape,omitempty"`
+	CookieHeader []string `json:"cookie_header,omitempty"`
 }
 
 type c18Finding struct {
@@ -850,6 +853,8 @@ func c18Run(c *Ctx) {
 			}
 		}
 	}
+	// hand-made Cookie headers: the request's cookie header shape must not influence any Set-Cookie
+	c18ReqShape(c, htpasswd, redis)
 	for _, name := range c18MustSee {
 		if c.Counters[name] == 0 {
 			c.Error("vacuous: outcome class %q never appeared in shard %d/%d", name, c.Shard, c.Shards)
@@ -861,15 +866,17 @@ func init() {
 	register(&checkDef{
 		id:    "C18",
 		level: "exploration",
-		rule:  "full product secure x httponly x samesite x path x domain sets x name length x store x csrf-per-request x reverse-proxy, times request hosts (exact, sub-domain, deeper, parent, unrelated, other domain, label-boundary; each with and without port; direct and via X-Forwarded-Host), times every cookie-emitting flow (sign-in page, login start, callback, refresh re-issue, oversized split session, sign-out, clear on invalid session, clear on authorisation failure, form login) driven by an RFC 6265 jar; every Set-Cookie line of every response is checked against a reference (attributes as configured, Domain = longest matching / shortest / none, <= 4096 bytes, deletions address the held cookie); evaluations = responses monitored; non-trivial = distinct (configuration, host, user, step) whose response carried a Set-Cookie",
+		rule:  "full product secure x httponly x samesite x path x domain sets x name length x store x csrf-per-request x reverse-proxy, times request hosts (exact, sub-domain, deeper, parent, unrelated, other domain, label-boundary; each with and without port; direct and via X-Forwarded-Host), times every cookie-emitting flow (sign-in page, login start, callback, refresh re-issue, oversized split session, sign-out, clear on invalid session, clear on authorisation failure, form login) driven by an RFC 6265 jar; every Set-Cookie line of every response is checked against a reference (attributes as configured, Domain = longest matching / shortest / none, <= 4096 bytes, deletions address the held cookie); evaluations = responses monitored; non-trivial = distinct (configuration, host, user, step) whose response carried a Set-Cookie. Request-cookie shapes (c18_reqshape_test.go): per (domain set x store x {csrf-per-request, reverse-proxy} with attributes running diagonally, host) the genuine cookies of a live session (one-cookie and split layout, fresh and refresh-due) are re-arranged by every shape of the grammar {as-is, twice, three times, copy at end, copy in a second Cookie field, garbage/tampered/empty value before or after, cookie of an earlier login before or after, names next to the family, other layout} x {session or ticket or all parts, CSRF, every cookie, first part, last part} and sent through every setting and clearing flow (page, sign-out, sign-in page, authorisation failure, login start, form login, auth endpoint, refused refresh, callback); every Set-Cookie line is checked by the same reference and, differentially, must carry an attribute signature the same proxy produced on the same host for the as-is header",
 		assumptions: []string{
 			"request host = Host header, or X-Forwarded-Host only in reverse-proxy mode, without its port (DESIGN Appendix B)",
 			"'matching' read both as string suffix of the configured text and as RFC 6265 domain-match without the leading dot; the union is accepted, differing cases counted as ambiguous",
 			"Domain compared after removing one leading dot and lower-casing; configured SameSite \"\" means no SameSite attribute (a bare one is tolerated)",
 			"cookie-expire 2h, cookie-refresh 10m, csrf-expire 15m fixed; Max-Age values are C09's subject, not checked here",
+			"request-cookie shapes: cookies are carried by hand (name=value as the proxy set them on this host), so requests a browser's jar would not produce are included: the clauses checked (attributes, Domain by request host, size, deletion keyed like the cookie set on this host) do not depend on how the request came about; the number of Set-Cookie lines and repeated identical deletions are counted, not judged",
 		},
 		shards: func(tier string) int { return 16 },
 		run:    c18Run,
+		post:   c18rsPost,
 		replay: func(c *Ctx, raw json.RawMessage) string {
 			if out, ok := concReplayFor(c, "C18", raw); ok {
 				return out
@@ -886,7 +893,11 @@ func init() {
 				return "configuration rejected: " + err.Error()
 			}
 			var obs []string
-			for _, f := range c18Scenario(nil, e, 0, cs.Host, 0, false) {
+			findings := c18Scenario(nil, e, 0, cs.Host, 0, false)
+			if cs.Shape != "" {
+				findings = c18rsScenario(nil, e, 0, cs.Host, 0, false)
+			}
+			for _, f := range findings {
 				c.Violate(f.Key, f.Msg, c18Size(f), f.Case)
 				if len(obs) < 6 {
 					obs = append(obs, fmt.Sprintf("[%s] %s", f.Key, f.Msg))
